@@ -111,6 +111,17 @@ class Ctx:
             base += "\n// " + sample + "\n"
         if r.random() < 0.2:
             base = base + "\n" + "x := 'pad';\n" * r.randint(1, 200)
+        # line terminators of the file: CRLF everywhere, CRLF on some lines only, and a last line without terminator, so
+        # that the formatted result can differ from the content in terminators only (even with the same byte length)
+        k = r.random()
+        if k < 0.15:
+            base = base.replace("\n", "\r\n")
+        elif k < 0.3:
+            base = "".join((ln + ("\r\n" if r.random() < 0.5 else "\n")) for ln in base.split("\n")[:-1]) + base.split("\n")[-1]
+        if r.random() < 0.15:
+            base = base.rstrip("\r\n")
+        if r.random() < 0.05:
+            base = r.choice(["a;\r\nb;", "a;\nb;\r\n\n", "unit foo;\n\ninterface\r\n\nimplementation\n\nend."])
         return base
 
     def fmt_many(self, items):
